@@ -229,4 +229,5 @@ VARIANTS = [
             "    else:\n      constants = sorted(node.constants)\n",
      "new": "    keep = self._PreserveConstantsOrdering(node)\n"
             "    constants = node.constants if keep else sorted(node.constants)\n", "expect": "silent"},
+    {"name": "twin-benign-C04-r2", "rule": "R5.23", "patch": "benign/C04-r2/patch.diff", "expect": "silent"},
 ]
